@@ -65,6 +65,11 @@ def lines_for(M, m, n, rng, ks=(0,)):
 
 def run(ctx):
     import gen as _gen
+    ctx.stream("leaf", _gen.leaf_lines(ctx.rng.fork("leaf-gcd"), (11, 12, 13), 3000 if ctx.quick else 150000),
+               "gcdExt of the int64 row reduction (through the hook CMRverifGcdExt): compiled function vs. the Gallina function generated "
+               "from its C text (while loop, out-pointers) and vs. its proved specification (gcd, Bezout identity, zero cofactors)",
+               describe=lambda c: {1: "malformed record", 340: "call undefined by the translated C text", 341: "translated and compiled "
+                                   "function disagree", 342: "specification violated"}.get(c, str(c)), nontrivial=lambda l, r: True)
     cert = _gen.equi_cert_lines(ctx.rng.fork("equi_cert"), 1500 if ctx.quick else 40000, 10 if ctx.quick else 14)
     attribute(ctx, cert, "equi_cert", (452, 453))
     ctx.stream("equi_cert", cert, "equimodular / unimodular tests on certified matrices L*X of every size (|det L| from the row "
